@@ -95,14 +95,7 @@ Variable pton4 pton6 : bytes -> bool.
 
 (** what addrsyntax() hands back for the line [s] (bytes before the terminator) *)
 Definition as_post (s : bytes) (flags : Z) (r : asres) : Prop :=
-  as_rc r = 0%Z \/
-  exists rt a post, s = rt ++ a ++ cGT :: post /\ ~ In cGT a
-    /\ (rt = [] \/ (flags = 1%Z /\ route rt /\ length rt <= 256))
-    /\ as_addr r = Some (map to_lower a)
-    /\ as_more r = match post with [] => None | _ => Some (length rt + length a + 1) end
-    /\ ((as_rc r = 1%Z /\ ((flags = 0%Z /\ a = []) \/ (flags = 1%Z /\ map to_lower a = POSTMASTER)))
-        \/ (as_rc r = 3%Z /\ mailbox pton4 pton6 lweak 3 a)
-        \/ (as_rc r = 4%Z /\ mailbox pton4 pton6 lweak 4 a)).
+  addrsyntax_post pton4 pton6 s flags (as_rc r) (as_addr r) (as_more r).
 
 (** from the search for the closing angle bracket on: the line is rt ++ y, [m1] is what became of rt *)
 Lemma as_tail rest flags rt m1 y : ~ In NUL y -> length m1 = length rt ->
@@ -278,16 +271,7 @@ Proof.
 Qed.
 
 (** the address addrparse() goes on with after the syntax check *)
-Definition ap_post (s : bytes) (flags : Z) (o : option bytes) : Prop :=
-  match o with
-  | None => True
-  | Some ad =>
-      exists rt a post, s = rt ++ a ++ cGT :: post /\ ~ In cGT a
-        /\ (rt = [] \/ (flags = 1%Z /\ route rt /\ length rt <= 256))
-        /\ ad = map to_lower a
-        /\ ((flags = 0%Z /\ a = []) \/ (flags = 1%Z /\ map to_lower a = POSTMASTER)
-            \/ mailbox pton4 pton6 lweak 3 a \/ (flags = 1%Z /\ mailbox pton4 pton6 lweak 4 a))
-  end.
+Definition ap_post (s : bytes) (flags : Z) (o : option bytes) : Prop := addrparse_post pton4 pton6 s flags o.
 
 Theorem addrparse_spec s rest flags : ~ In NUL s ->
   exists o, addrparse_syntax pton4 pton6 (s ++ NUL :: rest) flags = Ok o /\ ap_post s flags o.
